@@ -61,13 +61,17 @@ def start (t : TL) : TL × Option PyExc :=
 def workerExit (t : TL) : TL := { t with core := t.core.reset, mainThread := .finished }
 
 /-- `stop()`: request stop, wake the worker, join both threads (they exit: `H-join`), clear the
-    events, reset the logic layer, empty the relay queue, restore the user rxfn. -/
+    events, reset the logic layer, empty the relay queue (including the part of it already handed to
+    the logic layer as unread input), restore the user rxfn. -/
 def stop (t : TL) : TL × Option PyExc :=
   let t := { t with ev := { t.ev with stopRequested := true }, relayQ := t.relayQ ++ [none] }
   -- main thread joined: it leaves its loop and runs `reset()`
   let t := if t.mainThread = .running then t.workerExit else t
   let t := { t with mainThread := .none, relayThread := .none }
-  let t := { t with ev := Events.cleared, core := t.core.reset, relayQ := [], rxfnIsRelay := false, started := false }
+  -- the relay queue is drained: frames the worker took out of it but `process` has not read yet
+  -- (`core.inbox`) are dropped with it
+  let t := { t with ev := Events.cleared, core := { t.core.reset with inbox := [] }, relayQ := [],
+                    rxfnIsRelay := false, started := false }
   (t, none)
 
 /-- `send()` on the threaded layer (non-blocking): enqueue + wake-up token in the relay queue -/
@@ -139,7 +143,7 @@ def workerStep (t : TL) : TL :=
 def clean (t : TL) : Bool :=
   !t.started && t.mainThread = .none && t.relayThread = .none && t.relayQ.isEmpty &&
   t.core.rxState = .idle && t.core.txState = .idle && t.core.txQueue.isEmpty && t.core.rxQueue.isEmpty &&
-  t.core.active.isNone && t.ev = Events.cleared
+  t.core.active.isNone && t.ev = Events.cleared && t.core.inbox.isEmpty
 
 end TL
 
